@@ -486,6 +486,21 @@ func (env *specEnv) call(e *ast.CallExpr) Val {
 			}
 			lo, hi := tupleRange(tp, k)
 			return Val{ts: tv.ts[lo:hi]}
+		case "verif_le64":
+			// little-endian value of the first 8 bytes of a byte slice (same function the code model uses)
+			s := env.eval(e.Args[0])
+			if len(s.ts) != 4 {
+				return env.fail(e, "le64 of non-slice")
+			}
+			x.sc.declFun("le64dec", []string{"Int", "Int", "Int", "Int", "Int", "Int", "Int", "Int"}, "Int")
+			ek := elemKeyOf(types.Typ[types.Uint8], "")
+			x.regKey(ek, "(Array Int (Array Int Int))")
+			arr := app("select", x.hget(env.h(), ek), s.ts[0])
+			var bs []Term
+			for k := 0; k < 8; k++ {
+				bs = append(bs, app("select", arr, sidx(s.ts[1], num(int64(k)))))
+			}
+			return Val{ts: []Term{app("le64dec", bs...)}}
 		case "verif_raw":
 			// the mathematical value of an integer/reference expression, without any conversion
 			v := env.eval(e.Args[0])
